@@ -127,6 +127,20 @@ def run(ctx: Ctx) -> Result:
         if fits and len(msg):
             i = rng.choice([j for j in idx if len(cache[f'sigfield{j}'])]); c3 = dict(cache); c3[f'sigfield{i}'] = flip(cache[f'sigfield{i}'], rng)
             cases.append(('limits: corrupt covered field', c2, c3, P(sig) + P(pk) + op('CHECK_SIG') + b'\x00', 'F'))
+    # with a signature-extension plugin installed: every signature instruction runs it exactly once (SIGN must not run it again
+    # through its inner GET_MESSAGE), so that a plugin that is not idempotent still sees signing and checking cover the same bytes
+    cfgp = vmrun.Cfg(); cfgp.sigexts = ('l1',)
+    plug_expect = {}
+    for _ in range(ctx.n(40, 300)):
+        cache = presence(rng); flag = rng.choice([0, 0, 1, 0x80, rng.getrandbits(8)])
+        ki = rng.randrange(len(keys.sks)); sk, pk, seed = keys.sks[ki], keys.pks[ki], keys.seeds[ki]
+        msg = ref_msg(cache, flag); sigf = sk.sign(msg).signature + (bytes([flag]) if flag else b'')
+        for what, script, n_ext in (('plugin: CHECK_SIG', P(sigf) + P(pk) + op('CHECK_SIG') + b'\xff', 1),
+                                    ('plugin: SIGN then CHECK_SIG', P(seed) + op('SIGN') + bytes([flag]) + P(pk) + op('CHECK_SIG') + b'\xff', 2),
+                                    ('plugin: SIGN', P(seed) + op('SIGN') + bytes([flag]) + op('POP0') + op('TRUE'), 1),
+                                    ('plugin: GET_MESSAGE', op('GET_MESSAGE') + bytes([flag]), 1)):
+            plug_expect[len(cases)] = ','.join(['1'] * n_ext)
+            cases.append((what, cfgp, cache, script, 'T' if 'GET_MESSAGE' not in what else ('stack', (msg.hex() or 'e'))))
     # wrong lengths: error, never true
     sk, pk = keys.sks[0], keys.pks[0]
     sig = sk.sign(b'').signature
@@ -140,7 +154,7 @@ def run(ctx: Ctx) -> Result:
             outs.append(vmrun.run_impl(cfg_, cache, script))
     vmrun.in_big_thread(work)
     kinds = {}
-    for (what, cfg_, cache, script, exp), o in zip(cases, outs):
+    for ci_, ((what, cfg_, cache, script, exp), o) in enumerate(zip(cases, outs)):
         res.note_case((vmrun.cache_str(cache, False), script))
         kinds[what] = kinds.get(what, 0) + 1
         f = vmrun.fields(o); st = f['status']
@@ -150,6 +164,8 @@ def run(ctx: Ctx) -> Result:
         elif exp == 'F': ok = st == 'OK' and top == '00'
         elif exp == 'ERR': ok = st.startswith('ERR')
         else: ok = st == exp
+        if ok and ci_ in plug_expect and f.get('plog') != plug_expect[ci_]:
+            ok = False; o = f'plugin log {f.get("plog")} (expected {plug_expect[ci_]}: once per signature instruction) ' + o
         if not ok and len(res.violations) < 10:
             res.violations.append({'input': {'what': what, 'cfg': cfg_.line(), 'cache': vmrun.cache_str(cache, False), 'script': script.hex()},
                                    'expected': str(exp), 'observed': o[:200], 'how_to_run': './check C02 --replay <this file>'})
